@@ -10,6 +10,11 @@ server do.
 Property text, clause by clause:
   (a) "every call the server had already accepted runs to completion and its caller receives
        the full, true outcome"                         → `truthful`, `acceptedCallsComplete`
+      A server configured with a request timeout (`Server::timeout`) answers a call whose handler
+      has not produced the response head in time with CANCELLED "Timeout expired"; that answer is
+      then the call's true outcome (`CallView.timedOut`, `outcome`).  The timeout is a bound on
+      the time to the response head ONLY: a call that is past its head is owed the handler's
+      outcome, however long the body takes and whatever else the server is doing (shutting down).
   (b) "No connection is accepted after the signal"     → `noAcceptAfterSignal`
   (c) "the serve future resolves only after all connections have closed"
                                                        → `resolvedOnlyAfterClose`
@@ -22,6 +27,8 @@ inductive Out where
   | hdr
   | msg (j : Nat)
   | status (code : Nat)
+  /-- the server's own CANCELLED "Timeout expired" (trailers-only) -/
+  | expired
 deriving DecidableEq, Repr
 
 def msgs : Nat → Nat → List Out
@@ -62,7 +69,14 @@ structure CallView where
   started : Bool
   /-- the caller itself gave the call up, or left -/
   abandoned : Bool
+  /-- the server has a request timeout and it ran out while the handler of this call had not yet
+  produced its response head -/
+  timedOut : Bool := false
 deriving Repr
+
+/-- the true outcome of a call: what its handler produces when left to run — or, if the server's
+request timeout ran out before the response head, the server's "Timeout expired" -/
+def outcome (k : CallView) : List Out := if k.timedOut then [.expired] else k.plan
 
 def isPrefix : List Out → List Out → Bool
   | [], _ => true
@@ -72,12 +86,12 @@ def isPrefix : List Out → List Out → Bool
 /-- (a, truth) a caller never sees anything but a prefix of the true outcome, and sees nothing
 of a call the server did not accept. -/
 def truthful (ks : List CallView) : Bool :=
-  ks.all fun k => isPrefix k.got k.plan && (k.started || k.got.isEmpty)
+  ks.all fun k => isPrefix k.got (outcome k) && (k.started || k.got.isEmpty)
 
 /-- (a, completeness) every accepted call whose caller is still there has received the whole
 outcome. -/
 def acceptedCallsComplete (ks : List CallView) : Bool :=
-  ks.all fun k => !k.started || k.abandoned || k.got == k.plan
+  ks.all fun k => !k.started || k.abandoned || k.got == outcome k
 
 /-- (b) -/
 def noAcceptAfterSignal (cs : List ConnView) : Bool :=
